@@ -24,8 +24,13 @@ char *reg_get(int c, int *lnmode)
 	if (c == ';') {
 		char *s = lbuf_get(xb, xrow);
 		snprintf(ln, sizeof(ln), "%s", s ? s : "");
-		if (strchr(ln, '\n') != NULL)
+		if (strchr(ln, '\n') != NULL) {
 			*strchr(ln, '\n') = '\0';
+		} else if (ln[0]) {	/* cut short: not inside a character */
+			char *r = uc_beg(ln, ln + strlen(ln) - 1);
+			if (uc_len(r) > strlen(r))
+				*r = '\0';
+		}
 		if (lnmode != NULL)
 			*lnmode = 1;
 		return ln;
